@@ -1,6 +1,6 @@
 (* C07: resuming from a checkpoint reproduces the first run. *)
 From Coq Require Import List ZArith Bool.
-From DF Require Import Base.Str Base.Value IO.EJson IO.EJson_proofs IO.EJsonInst IO.Stream IO.Stream_proofs.
+From DF Require Import Base.Str Base.Value IO.EJson IO.EJson_proofs IO.EJsonInst IO.JsonText IO.JsonText_proofs IO.JsonLine_proofs IO.Stream IO.Stream_proofs.
 Import ListNotations.
 Open Scope Z_scope.
 
@@ -22,6 +22,31 @@ Theorem C07_reserved_keys_distinct :
   str_nodup [k_dec real_keys; k_time real_keys; k_dt real_keys; k_date real_keys; k_dur real_keys; k_set real_keys] = true.
 Proof. vm_compute. reflexivity. Qed.
 Print Assumptions C07_reserved_keys_distinct.
+
+(* the JSON text layer: json.loads (json.dumps j) = j for every tree without binary floats whose strings are
+   valid code points -- integers of any size, every escape class of ensure_ascii (quote, backslash, control
+   characters, \uXXXX, surrogate pairs), arrays and objects of any depth; also with the trailing line feed *)
+Theorem C07_json_text_roundtrip : forall j, jok j -> jparse (jprint j) = Some j.
+Proof. exact jparse_jprint. Qed.
+Print Assumptions C07_json_text_roundtrip.
+
+Theorem C07_json_text_roundtrip_line : forall j, jok j -> jparse (jprint j ++ [10]) = Some j.
+Proof. exact jparse_jprint_line. Qed.
+Print Assumptions C07_json_text_roundtrip_line.
+
+(* text and tree layers composed: a written line reads back as the value it was written from *)
+Theorem C07_line_roundtrip : forall K dec_str dec_parse time_str time_parse dt_str dt_parse date_str date_parse dur_str dur_parse,
+  (forall m e, dec_parse (dec_str m e) = Some (m, e)) ->
+  (forall h mi sc, time_parse (time_str h mi sc) = Some (h, mi, sc)) ->
+  (forall y mo d h mi sc, dt_parse (dt_str y mo d h mi sc) = Some (y, mo, d, h, mi, sc)) ->
+  (forall y mo d, date_parse (date_str y mo d) = Some (y, mo, d)) ->
+  (forall d sc us, dur_parse (dur_str d sc us) = Some (d, sc, us)) ->
+  str_nodup [k_dec K; k_time K; k_dt K; k_date K; k_dur K; k_set K] = true ->
+  forall v, ejson_ok K v = true -> jok (encode K dec_str time_str dt_str date_str dur_str v) ->
+  read_line K dec_parse time_parse dt_parse date_parse dur_parse
+    (write_line K dec_str time_str dt_str date_str dur_str v) = Some v.
+Proof. exact line_roundtrip. Qed.
+Print Assumptions C07_line_roundtrip.
 
 (* the stream file format round-trips: every resource and every row, in order, empty resources included *)
 Theorem C07_stream_roundtrip : forall (D R : Type) (encD : D -> line) decD (encR : R -> line) decR nres,
